@@ -1161,10 +1161,8 @@ Proof.
       split; auto. apply const_field_layout; auto. apply (xlayout_const_range sub _ fv Hwf Hx).
     + intros l' raw -> Hr.
       assert (layout_eqb sub l' = true /\ fv = raw) as [He ->].
-      { destruct sub as [s|s vw ms|fs|fs|e n|sz fs]; simpl in Hl; try discriminate; cbn [xfield_init is_union] in Hfi;
-        try (destruct (layout_eqb _ l'); inversion Hfi; auto; fail).
-        destruct l' as [?|? ? ?|?|?|e' n'|? ?]; try discriminate.
-        destruct (1 <? Z.of_nat n'); [discriminate|]. destruct (layout_eqb _ _); inversion Hfi; auto. }
+      { destruct sub as [s|s vw ms|fs|fs|e n|sz fs]; simpl in Hl; try discriminate; cbn [xfield_init] in Hfi;
+        destruct (layout_eqb _ l'); inversion Hfi; auto. }
       split; auto. split; auto. apply const_field_layout; auto. rewrite (layout_eqb_size _ _ He). exact Hr.
   - intros s vw ms m -> -> Hm. simpl in Hfi, Hwf. destruct (memz m ms) eqn:Hmem; [|discriminate].
     inversion Hfi; subst. simpl layout_size. rewrite mask_of_norm by auto. rewrite mask_small by auto.
@@ -1194,4 +1192,27 @@ Proof.
   - intros kvs' Hl Hx. exists fv. apply (proj1 (HN Hl) kvs' Hx).
   - intros l' raw Hl Hx Hr. destruct (proj2 (HN Hl) l' raw Hx Hr) as (_ & He & Hc). auto.
   - intros s vw ms m Hs Hx Hm. apply (HE s vw ms m Hs Hx Hm).
+Qed.
+
+(* a lib.data.Const of the same union layout is accepted by a union-shaped field (UnionLayout.const no longer
+   takes len() of it) and passes through unchanged; one of a layout that compares different is a ValueError *)
+Lemma shape_eqb_refl s : shape_eqb s s = true.
+Proof. unfold shape_eqb. rewrite Z.eqb_refl. destruct (sgn s); reflexivity. Qed.
+
+Lemma layout_eqb_union_refl fs : wf_layout (Union fs) = true -> layout_eqb (Union fs) (Union fs) = true.
+Proof.
+  intros Hwf. pose proof (wf_union_inv fs Hwf) as [Hnd _]. unfold layout_eqb.
+  rewrite Z.eqb_refl, Nat.eqb_refl. cbn [is_array Bool.eqb orb andb]. rewrite andb_true_r.
+  apply forallb_forall. intros [k [o f]] Hin. cbn [fst snd].
+  rewrite (in_assoc_nodup k (o, f) (fields_of (Union fs))); auto.
+  - unfold field_eqb. cbn [fst snd]. rewrite Z.eqb_refl, shape_eqb_refl. reflexivity.
+  - simpl. rewrite map_map. simpl. exact Hnd.
+Qed.
+
+Lemma union_const_passthrough rec fs l' raw : wf_layout (Union fs) = true ->
+  xfield_init rec (Union fs) (XDConst (Union fs) raw) = Okz raw /\
+  (layout_eqb (Union fs) l' = false -> xfield_init rec (Union fs) (XDConst l' raw) = Errz 3).
+Proof.
+  intros Hwf. cbn [xfield_init]. rewrite (layout_eqb_union_refl fs Hwf). split; [reflexivity|].
+  intros ->. reflexivity.
 Qed.
